@@ -619,6 +619,16 @@ TOKEN_PATTERNS = [
 ]
 
 
+# Escape sequences recognised inside quoted strings (mirror of the emitter's escaping).
+# Unknown escapes (e.g. \\d in a regex) are kept verbatim.
+_ESCAPE_SEQUENCE = re.compile(r"\\(.)", re.DOTALL)
+_ESCAPE_MAP = {'"': '"', "\\": "\\", "n": "\n", "t": "\t"}
+
+
+def _unescape_match(match: "re.Match[str]") -> str:
+    return _ESCAPE_MAP.get(match.group(1), match.group(0))
+
+
 # GH#145: Pattern to detect malformed envelope markers
 # Matches ===...=== with any content between
 _INVALID_ENVELOPE_PATTERN = re.compile(r"===([^=\n]*)===")
@@ -889,11 +899,10 @@ def tokenize(content: str, lenient: bool = False) -> tuple[list[Token], list[Any
                     else:
                         # Single-quoted string: remove " from both ends
                         value = matched_text[1:-1]
-                    # Process escape sequences
-                    value = value.replace(r"\"", '"')
-                    value = value.replace(r"\\", "\\")
-                    value = value.replace(r"\n", "\n")
-                    value = value.replace(r"\t", "\t")
+                    # Process escape sequences in a single left-to-right pass so that an
+                    # escaped backslash is never re-read as the start of another escape
+                    # (sequential str.replace read backslash-backslash-n as a newline).
+                    value = _ESCAPE_SEQUENCE.sub(_unescape_match, value)
                 elif token_type == TokenType.NUMBER:
                     # Convert to int or float, but preserve raw lexeme for fidelity (GH#66)
                     if "." in matched_text or "e" in matched_text.lower():
